@@ -351,6 +351,7 @@ ROOT_TREE = {
     "a/ns/X.1.0.dsdl": "@sealed\n", "a/ns/sub/S.1.0.dsdl": "@sealed\n", "a/ns/sub/deep/T.1.0.dsdl": "@sealed\n",
     "a/ns/sub/deep/er/U.1.0.dsdl": "@sealed\n", "b/ns/Y.1.0.dsdl": "@sealed\n", "c/NS/W.1.0.dsdl": "@sealed\n",
     "d/other/V.1.0.dsdl": "@sealed\n", "a/nsx/Q.1.0.dsdl": "@sealed\n", "e/Ns/R.1.0.dsdl": "@sealed\n",
+    "a/ns/ns/Z.1.0.dsdl": "@sealed\n", "a/ns/sub/Ns/P.1.0.dsdl": "@sealed\n",
 }
 # (root, lookups, kind): kind in ok / nested / same-name
 LAYOUTS = [
@@ -364,6 +365,11 @@ LAYOUTS = [
     ("a/ns/sub/deep", ["a/ns"], "nested"),
     ("d/other", ["a/ns/sub/deep/er", "a/ns"], "nested"),
     ("d/other", ["a/ns", "a/ns/sub/deep"], "nested"),
+    # nested AND named alike: the name comparison must not pre-empt the nesting test
+    ("a/ns", ["a/ns/ns"], "nested"),
+    ("a/ns/ns", ["a/ns"], "nested"),
+    ("a/ns", ["a/ns/sub/Ns"], "nested"),
+    ("d/other", ["a/ns/sub/Ns", "a/ns"], "nested"),
     ("a/ns", ["a/nsx"], "ok"),
     ("a/ns", ["a/ns"], "ok"),
     ("a/ns", ["link_a_ns"], "ok"),
@@ -452,7 +458,7 @@ def conditions(tier: str, seed: int) -> typing.List[Cond]:
                     witness={"order": 0, "oi": 0}, budget=120.0, need_exhaust=True))
     for api in ("read_namespace", "read_files"):
         out.append(Cond(PROP, "c10.roots", make_roots, {"api": api}, {"li": int, "allow": int, "oi": int}, kind="choice",
-                        assumptions=["%d layouts of root / lookup directories (nesting at depth 1..3, same name incl. letter "
+                        assumptions=["%d layouts of root / lookup directories (nesting at depth 1..3, nesting of same-named directories, same name incl. letter "
                                      "case, prefix names, same directory, symlink) x allow-collision flag x orders" % len(LAYOUTS)],
                         witness={"li": 0, "allow": 1, "oi": 0}, budget=900.0, need_exhaust=True))
     return out
